@@ -870,7 +870,18 @@ def _map_scalar_or_arr(f, kind=None):
 REG["numpy.ceil"] = _map_scalar_or_arr(lambda x: V.to_real(V.ceil_(x)) if is_sym(x) else Fraction(math.ceil(x), 1), "real")
 REG["numpy.floor"] = _map_scalar_or_arr(lambda x: V.to_real(V.floor_(x)) if is_sym(x) else Fraction(math.floor(x), 1), "real")
 REG["numpy.fix"] = _map_scalar_or_arr(lambda x: V.to_real(V.trunc(x)) if is_sym(x) else Fraction(int(x), 1), "real")
-REG["numpy.round"] = _map_scalar_or_arr(lambda x: V.to_real(V.round_half_even(x)) if is_sym(x) else Fraction(round(x), 1))
+def _np_round(x, decimals=0, **kw):
+    # rounding to `decimals` > 0 places is a presentation detail: modelled as the identity (stated assumption);
+    # decimals == 0 is round-half-to-even as numpy documents
+    if not (isinstance(decimals, int) and decimals == 0):
+        return A.from_nested(x) if isinstance(x, (SArr, list, tuple)) else x
+    f = lambda v: V.to_real(V.round_half_even(v)) if is_sym(v) else Fraction(round(v), 1)
+    if isinstance(x, (SArr, MaskedSel, list, tuple)):
+        return A.map1(f, x if not isinstance(x, (list, tuple)) else A.from_nested(x))
+    return f(x)
+
+
+REG["numpy.round"] = _np_round
 REG["numpy.rint"] = REG["numpy.round"]
 REG["numpy.sqrt"] = _map_scalar_or_arr(_sqrt, "real")
 REG["numpy.abs"] = _map_scalar_or_arr(V.sabs)
